@@ -102,6 +102,29 @@ def delay_rows_impl(s, rng):
     return X, g, lb, ub
 
 
+def alias_variant(ctx, s):
+    """the receiving variable addressed through a negated alias, the delayed expression negated: every row is
+    the same row or its negation"""
+    import random
+    r2 = random.Random(json.dumps(s, sort_keys=True, default=str))
+    s2 = json.loads(json.dumps(s))
+    d = s2["delayed_feedback"][r2.randrange(len(s2["delayed_feedback"]))]
+    s2["aliases"] = [[d[1], "-n" + d[1]]]
+    d[0], d[1] = ["neg", d[0]], "n" + d[1]
+    try:
+        seed = r2.random()
+        X, g, _, _ = delay_rows_impl(s, random.Random(seed))
+        X2, g2, _, _ = delay_rows_impl(s2, random.Random(seed))
+    except Exception as e:  # noqa: BLE001
+        ctx.count("alias_variant_exception_" + type(e).__name__)
+        return
+    ctx.count("alias_variants")
+    if len(g) != len(g2) or any(not (tr.close(a, b, 1e-8) or tr.close(a, -b, 1e-8)) for a, b in zip(g, g2)):
+        bad = [(i, a, b) for i, (a, b) in enumerate(zip(g, g2)) if not (tr.close(a, b, 1e-8) or tr.close(a, -b, 1e-8))]
+        ctx.violation("delay/alias-target", {"spec": s, "alias_spec": s2, "X": [str(x) for x in X], "differences": bad[:5]},
+                      what="a delayed feedback received through a negated alias (expression negated) gives other rows: %s" % (bad[:2],))
+
+
 def model_term(s, X):
     ei = tr.env_index(s)
     q = lambda v: gq(tr.fx(Fraction(v)))  # noqa: E731
@@ -137,7 +160,9 @@ def run(ctx):
     else:
         specs = [c["spec"] for c in core.corpus_cases(ID)] + [gen_case(ctx.rng) for _ in range(ctx.n(120, 4000))]
     jobs = []
-    for s in specs:
+    for si, s in enumerate(specs):
+        if not replay and si % 3 == 0:
+            alias_variant(ctx, s)
         try:
             X, g, lb, ub = delay_rows_impl(s, ctx.rng)
         except Exception as e:
